@@ -38,6 +38,7 @@ SEARCHABLE = {"C01": "all byte strings over {a : / % C3 A9 FF} up to 4 bytes: ow
               "C07": "all pairs from ~450 short references (alphabet {a / . : ? #} up to 4 bytes + 29 hand-picked with ports, IP literals, percent-escapes), ~150 paths, ~60 authorities, 7 hosts; inputs whose percent-decoding is not UTF-8 are skipped (C19 finding)",
               "C08": "same pairs as C07: == vs cmp == Equal, antisymmetry, hasher feeds of equal values and of the views of one value (recording hasher)",
               "C13": "all IRI references over {a : / ? #} up to 5 bytes + 5 non-ASCII texts: outcome and text of 20 conversions, and the value inside the error of the 5 owned conversions that can fail",
+              "C18": "'data:' + every text over {a ; , / b} up to 6 bytes, plus ~160 texts containing ';base64,' in header and data positions: scanner vs the shape oracle, parts vs borrowed accessors",
               "C19": "all component texts over {a % 4 1 ? /} up to 4 bytes whose decoded octets are UTF-8: text, decoding and length of the as_pct_str view of Query / Fragment / Segment / Host / UserInfo of both families",
               "C16": "all URIs over {a : / ? #} up to 6 bytes (base) and all pairs of paths over {a / .} up to 5 bytes (suffix)"}
 
